@@ -6,21 +6,25 @@ Line-protocol oracle for C19, suite `config-runs` (stateful: the data facts).
   code <repair> …                                     -> ok
         which repairs are declared to be in the tree (`-` = none): reportEveryChecked objectiveChecked
         loopInvariantGuarded concurrencyCapped runNumberBounded outputPathChecked cpuProfilePathChecked
+        outputPathStatChecked summaryNameAnchored
   env <dataset> <bind0> <never0> … <bind5> <never5>   -> ok
         limit zones of a data set (thousandths), extracted by the harness from the real catchment model,
         in the order of `limitKeys`
   cfg <entry> …                                       -> load=<ok|err:decode|err:unknown+mandatory(F,..)> interp=<ok|err:model,annealer,scenario|panic|->
         the structured configuration: <entry> = <sec>/<key>=<kind>:<value>
-        sec  S SU SR SRL A AP M MP MD Z;  kind  i (integer) f (decimal, thousandths) s (string token) b (0|1) p (path symbol) t (table)
-  pred <entry> …                                      -> accepts=<0|1> safe=<0|1> must=<names|-> may=<names|-> fixed=<names|->
+        sec  S SU SR SRL A AP M MP MD Z T (T = bare top-level keys);  kind  i (integer) f (decimal, millionths, any number of digits) s (string) b (0|1)
+        p (path symbol) t (table) a (array) d (datetime); in keys and strings a blank, `%` and every control character
+        are written `%XX` (two hexadecimal digits)
+  pred <entry> …                                      -> accepts=<0|1> safe=<0|1> must=<names|-> may=<names|-> fixed=<names|-> files=<n>
         harness pre-pass: the finding predicates evaluated on the structured form; `must` = findings
         whose failure site every run reaches, `may` = findings that end a run only sometimes, `fixed` =
         findings that hold syntactically but whose repair is declared (they cannot end a run if the
-        declaration is true)
-  ran <outcome> <candidates|-> <summaries> <entry> …  -> ok | missing-results | unexpected-completion | explained:<finding> | recurred:<finding> | unexplained | …
+        declaration is true); `files` = the number of summary files a scenario whose runs all complete leaves behind
+  ran <outcome> <candidates|-> <summaries> <entry> …  -> ok | missing-results | extra-results | unexpected-completion | explained:<finding> | recurred:<finding> | unexplained | …
         the verdict on an observed run: a crash is explained only by a finding that holds of the
         configuration AND is among the candidates the harness derived from the panic text; `recurred` =
-        such a finding whose repair is declared: the repair is not (or no longer) effective
+        such a finding whose repair is declared: the repair is not (or no longer) effective; a completed scenario is
+        `ok` only with EXACTLY one summary file per run
   notrun <entry> …                                    -> boundary:too-long-to-run | should-run
         an accepted configuration the harness did not run: legitimate only for a RunNumber above `runLimit`
         (e.g. next to the 2^31 - 1 bound: only its accept/reject verdict is compared)
@@ -31,17 +35,36 @@ open Crem.Config
 def parseSec : String → Option Sec
   | "S" => some .scenario | "SU" => some .userDetail | "SR" => some .reporting | "SRL" => some .logDest
   | "A" => some .annealer | "AP" => some .annealerParams | "M" => some .model | "MP" => some .modelParams
-  | "MD" => some .metaData | "Z" => some .other
+  | "MD" => some .metaData | "Z" => some .other | "T" => some .top
   | _ => none
+
+def hexVal (c : Char) : Option Nat :=
+  if '0' ≤ c ∧ c ≤ '9' then some (c.toNat - '0'.toNat)
+  else if 'a' ≤ c ∧ c ≤ 'f' then some (c.toNat - 'a'.toNat + 10)
+  else if 'A' ≤ c ∧ c ≤ 'F' then some (c.toNat - 'A'.toNat + 10)
+  else none
+
+/-- `%XX` -> the character with that code -/
+def unescapeChars : List Char → List Char
+  | '%' :: a :: b :: r =>
+    match hexVal a, hexVal b with
+    | some x, some y => Char.ofNat (16 * x + y) :: unescapeChars r
+    | _, _ => '%' :: unescapeChars (a :: b :: r)
+  | c :: r => c :: unescapeChars r
+  | [] => []
+
+def unescape (s : String) : String := String.ofList (unescapeChars s.toList)
 
 def parseVal (kind rest : String) : Option Val :=
   match kind with
   | "i" => rest.toInt?.map Val.int
   | "f" => rest.toInt?.map Val.flt
   | "b" => some (.bool (rest = "1"))
-  | "s" => some (.str rest)
+  | "s" => some (.str (unescape rest))
   | "p" => some (.path rest)
   | "t" => some .table
+  | "a" => some .array
+  | "d" => some .datetime
   | _ => none
 
 /-- `<sec>/<key>=<kind>:<value>`; the value may itself contain '/', '=' or ':' -/
@@ -56,7 +79,7 @@ def parseEntry (w : String) : Option Entry :=
       | kind :: r3 =>
         if r2.isEmpty ∨ r3.isEmpty then none else
         match parseSec secS, parseVal kind (":".intercalate r3) with
-        | some s, some v => some ⟨s, key, v⟩
+        | some s, some v => some ⟨s, unescape key, v⟩
         | _, _ => none
       | [] => none
     | [] => none
@@ -91,7 +114,9 @@ def parseRepairs (ws : List String) : Repairs :=
     concurrencyCapped := ws.contains "concurrencyCapped"
     runNumberBounded := ws.contains "runNumberBounded"
     outputPathChecked := ws.contains "outputPathChecked"
-    cpuProfilePathChecked := ws.contains "cpuProfilePathChecked" }
+    cpuProfilePathChecked := ws.contains "cpuProfilePathChecked"
+    outputPathStatChecked := ws.contains "outputPathStatChecked"
+    summaryNameAnchored := ws.contains "summaryNameAnchored" }
 
 def verdictLine (r : Repairs) (c : Cfg) : String :=
   match verdict r c with
@@ -109,23 +134,25 @@ def mustMay (r : Repairs) (env : Env) (c : Cfg) : List String × List String :=
   let fs := findingNames r env c
   (fs.filter (certain env l), fs.filter (fun n => !certain env l n))
 
+/-- the largest number of runs the harness actually executes -/
+def runLimit : Int := 1000
+
+/-- the number of summary files a completed scenario must leave behind (0 for one that is too long to run anyway) -/
+def filesToCount (r : Repairs) (c : Cfg) : Nat :=
+  if (mkLoaded c).runNumber ≤ runLimit.toNat then expectedSummaryFiles r (mkLoaded c) else 0
+
 def predLine (r : Repairs) (env : Env) (c : Cfg) : String :=
   let (must, may) := mustMay r env c
   let safe := match load r c with | .ok l => runSafeB r env l | .error _ => false
-  s!"accepts={boolStr (accepts r c)} safe={boolStr safe} must={commaList must} may={commaList may} fixed={commaList (repairedNames r c)}"
-
-/-- the largest number of runs the harness actually executes -/
-def runLimit : Int := 1000
+  s!"accepts={boolStr (accepts r c)} safe={boolStr safe} must={commaList must} may={commaList may} fixed={commaList (repairedNames r c)} files={filesToCount r c}"
 
 def notRunLine (c : Cfg) : String :=
   match get c .scenario "RunNumber" with
   | some (.int i) => if runLimit < i then "boundary:too-long-to-run" else "should-run"
   | _ => "should-run"
 
-def expectedRuns (c : Cfg) : Nat :=
-  match get c .scenario "RunNumber" with
-  | some (.int i) => if 1 ≤ i then i.toNat else 1
-  | _ => 1
+/-- the finding that does not end a run: the scenario completes, a summary file is missing -/
+def silentFinding : String := "ResultFileNotWritten"
 
 def ranLine (r : Repairs) (env : Env) (outcome cands : String) (summaries : Nat) (c : Cfg) : String :=
   let (must, may) := mustMay r env c
@@ -133,11 +160,16 @@ def ranLine (r : Repairs) (env : Env) (outcome cands : String) (summaries : Nat)
   let explained := match candList.find? (fun n => must.contains n || may.contains n) with
     | some n => some ("explained:" ++ n)
     | none => (candList.find? (fun n => (repairedNames r c).contains n)).map ("recurred:" ++ ·)
+  let runs := (mkLoaded c).runNumber
+  let files := filesToCount r c
   match outcome with
   | "completed" =>
-    if summaries < expectedRuns c then "missing-results"
-    else if !must.isEmpty then "unexpected-completion"
-    else "ok"
+    if !(must.filter (· != silentFinding)).isEmpty then "unexpected-completion"
+    else if summaries = files then (if files = runs then "ok" else "explained:" ++ silentFinding)
+    else if summaries = runs then "unexpected-completion"
+    else if (repairedNames r c).contains silentFinding then "recurred:" ++ silentFinding
+    else if summaries < runs then "missing-results"
+    else "extra-results"
   | "panic" => explained.getD "unexplained"
   | "run-failed-error" => explained.getD "unexplained"
   | "error-value" => explained.getD "run-error"
